@@ -126,11 +126,12 @@ def run(tier, seed, which="C01"):
     wd = kv.workdir("c01")
     rng = random.Random(seed)
     # --- M1: the design
-    r = kv.tlc_mc("MC_Weave", "MC_Weave_q.cfg" if tier == "quick" else "MC_Weave_t.cfg", wd, timeout=3000)
-    for X in (V, V10):
-        X.add_tlc(r)
-    if not r.ok:
-        raise kv.Broken("MC_Weave violates its own invariants: %s" % r.errors[:2])
+    for cfg in (["MC_Weave_q.cfg"] if tier == "quick" else ["MC_Weave_q.cfg", "MC_Weave_t.cfg", "MC_Weave_t3.cfg"]):
+        r = kv.tlc_mc("MC_Weave", cfg, wd, timeout=3000)
+        for X in (V, V10):
+            X.add_tlc(r)
+        if not r.ok:
+            raise kv.Broken("MC_Weave (%s) violates its own invariants: %s" % (cfg, r.errors[:2]))
     kv.tlc_mc("MC_Weave", "MC_Weave_twin.cfg", wd, expect_violation=True)
     # --- M3: recorded executions
     scs = make_scenarios(rng, tier)
